@@ -8,6 +8,9 @@ FIT_OPTS = {"fit": {"tmax": 120, "Niter_params": [12, 12], "Nconv_params": [3, 2
 STAGE_FILES = ["negloglike_comp%d.dat", "codelen_comp%d_deriv.dat", "derivs_comp%d.dat", "codelen_matches_comp%d.dat", "final_%d.dat"]
 
 
+ONE = [["a"], ["inv"], ["*"]]          # complexity 1: the single function a0
+
+
 class _Comm:
     def Barrier(self):
         pass
@@ -227,8 +230,9 @@ def _stages(run, s, tier):
     # rank counts: small, more than ten ranks that all own functions (two-digit rank numbers in the partial file names), more ranks than functions
     plans = [("core_maths", 3, [2, 3, 5, 11, 16]), ("core_maths", 2, [3])] if tier == "quick" else \
         [("core_maths", 3, [2, 3, 4, 5, 7, 8, 11, 12, 16]), ("core_maths", 2, [2, 3, 5]), ("core_maths", 4, [3, 7, 11, 13, 16])]
+    plans.append(("verif_one", 1, [2] if tier == "quick" else [2, 3]))          # N = 1: a library with exactly one function
     for name, n, Ps in plans:
-        L, _ = common.gen_library(run, s, name, n)
+        L, _ = common.gen_library(run, s, name, n, basis=ONE if name == "verif_one" else None)
         if L is None:
             continue
         ref = None
